@@ -685,6 +685,19 @@ class Program:
                     v.append(("exception", "helper-exception", "%s died: %s" % (t.name, (t.tb or "")[-500:])))
         if client_saw_render_fault and self.caught is None and not self.probes["fault_in_helper_thread"] and self.other_exc is None:
             v.append(("propagation", "fault-swallowed", "an exception raised by the renderable did not propagate out of the block"))
+        # whatever went wrong, printed lines are never taken back: every row that had been printed
+        # (and verified on screen) before the fault is still there, in order ("no printed line
+        # overwritten" is not conditional on the absence of exceptions)
+        if fired and not o.relaxed and o.viol is None and "progress-frame-exceeds-screen" not in o.tags:
+            have = [r for r in o.scr.all_cells() if r]
+            pos = 0
+            for row in o.committed:
+                try:
+                    pos = have.index(row, pos) + 1
+                except ValueError:
+                    v.append(("screen", "printed-line-lost-after-fault", "after the exception a printed line is gone from the screen: %r (fault=%r); screen now %r" % (
+                        "".join(ch for ch, _ in row), fault, ["".join(ch for ch, _ in r) for r in have][:12])))
+                    break
         if not o.scr.cursor_visible:
             v.append(("cleanup", "cursor-hidden-after-exit", "cursor still hidden after the block exited (fault=%r)" % (fault,)))
         if sys.stdout is not self.stdout_sentinel or sys.stderr is not self.stderr_sentinel:
